@@ -30,16 +30,16 @@ static rc::Gen<Step> genStep(const std::string &focus)
 	auto kind = gen::weightedElement<int>({{wc, K_CORRECT}, {wr, K_CACHE_RESET}, {we, K_ERROR}, {wn, K_NOANSWER}, {wf, K_FAULTY}, {wv, K_V0}, {wh, K_HOSTILE}, {wraw, K_RAW}});
 	auto part1 = gen::tuple(kind, gen::weightedElement<int>({{12, 0}, {2, 1}, {1, 2}}), /* open_fails */
 				gen::weightedElement<int>({{10, 0}, {2, 1}, {1, 2}, {1, 3}, {1, 4}, {2, 5}, {2, 6}, {1, 7}, {1, 8}}), /* open_delay */
-				gen::weightedElement<int>({{14, S_OK}, {3, S_PARTIAL}, {1, S_ERROR}, {1, S_WOULDBLOCK}, {1, S_INTR}, {1, S_PARTIAL_THEN_ERROR}}),
-				gen::weightedElement<int>({{4, 0}, {6, 1}, {2, 2}}), /* advance */
-				gen::oneOf(genMask(0), genMask(0), genMask(1)), gen::weightedElement<int>({{20, 0}, {1, 1}, {2, 2}, {1, 3}}) /* bulk */,
+				gen::weightedElement<int>({{14, S_OK}, {3, S_PARTIAL}, {1, S_ERROR}, {1, S_WOULDBLOCK}, {1, S_INTR}, {1, S_PARTIAL_THEN_ERROR}, {focus == "C14" ? 4 : 1, S_SLOW_PARTIAL}}),
+				gen::weightedElement<int>({{8, 0}, {12, 1}, {4, 2}, {2, 3}, {2, 4}, {1, 5}}), /* advance */
+				gen::oneOf(genMask(0), genMask(0), genMask(1)), gen::weightedElement<int>({{focus == "C18" ? 4 : 20, 0}, {1, 1}, {2, 2}, {1, 3}}) /* bulk */,
 				gen::weightedElement<int>({{15, 0}, {1, 1}}) /* new_session */);
 	auto part2 = gen::tuple(rng<int>(0, M_N - 1), rng<int>(0, 255), gen::weightedElement<int>({{3, 0}, {1, 1}}) /* keep */,
-				gen::weightedOneOf<int>({{4, gen::just(-1)}, {1, gen::element<int>(M_ANN_THEN_WD, M_ANN_THEN_WD, M_DUP_ANNOUNCE, M_WITHDRAW_UNKNOWN)}}), rng<int>(0, 255),
-				rng<int>(0, 15), rng<int>(0, 5), rng<int>(0, 3), rng<int>(0, 255));
+				gen::weightedOneOf<int>({{4, gen::just(-1)}, {1, gen::element<int>(M_ANN_THEN_WD, M_ANN_THEN_WD, M_DUP_ANNOUNCE, M_WITHDRAW_UNKNOWN, M_PREFIX_BADVER)}}), rng<int>(0, 255),
+				rng<int>(0, 15), rng<int>(0, 5), gen::weightedOneOf<int>({{3, rng<int>(0, 3)}, {focus == "C04" ? 3 : 1, rng<int>(4, 7)}}), rng<int>(0, 255));
 	int wiv = focus == "C17" ? 1 : 4;
 	auto ivg = gen::weightedOneOf<int>({{wiv, gen::element<int>(6, 8, 1, 17, 18)}, {2, rng<int>(0, IV_N - 1)}});
-	auto idle = gen::weightedElement<int>({{10, I_TIMEOUT}, {2, I_INTR}, {3, I_CLOSE}, {2, I_ERROR}, {3, I_NOTIFY}, {focus == "C07" || focus == "C05" ? 3 : 1, I_STOP_RESTART}});
+	auto idle = gen::weightedElement<int>({{10, I_TIMEOUT}, {2, I_INTR}, {3, I_CLOSE}, {2, I_ERROR}, {3, I_NOTIFY}, {focus == "C07" || focus == "C05" ? 3 : 1, I_STOP_RESTART}, {focus == "C17" ? 4 : 1, I_LATE_INTR}});
 	auto part3 = gen::tuple(ivg, ivg, ivg, rng<int>(0, 255), gen::weightedElement<int>({{4, 0}, {2, 1}, {3, 2}, {1, 3}}), gen::weightedElement<int>({{5, 0}, {1, 1}}), idle, idle, idle,
 				rng<int>(0, 255), gen::container<std::vector<uint8_t>>(gen::arbitrary<uint8_t>()));
 	return gen::apply(
@@ -100,6 +100,7 @@ int main(int argc, char **argv)
 	Options opt;
 	opt.trace = true;
 	opt.battery = args.prop == "C06" || args.prop == "C04";
+	opt.focus = args.prop;
 	std::string mode = args.kv.count("mode") ? args.kv["mode"] : "plain";
 	// metamorphic partners: the same script under another read/write chunking (C04) or another stack/heap dirtying pattern (C14)
 	auto run_script = [&](const Script &sc) -> Report {
@@ -133,7 +134,7 @@ int main(int argc, char **argv)
 			r0.what = "failure-free conversation: " + std::to_string(r0.leaked) + " block(s) of the configured allocator still allocated after the tables were freed, " + std::to_string(r0.foreign_free) + " unknown block(s) passed to its free";
 			return r0;
 		}
-		long N = r0.allocs, stride = N > 400 ? N / 400 + 1 : 1;
+		long N = r0.allocs, stride = N > 1500 ? N / 1500 + 1 : 1;
 		r0.cls["conversations-enumerated-for-allocation-failures"]++;
 		for (long k = 1; k <= N; k += stride) {
 			if (stp) stp->current_case(to_text(sc) + "# failing allocation k=" + std::to_string(k) + " of " + std::to_string(N) + "\n");
@@ -142,6 +143,10 @@ int main(int argc, char **argv)
 			Report rk = run(sc, o2);
 			r0.cls["allocation-failures-injected"]++;
 			if (rk.alloc_failed_hit) r0.cls["allocation-failures-that-hit-the-library"]++;
+			if (rk.ok && rk.foreign_free) {
+				rk.ok = false; rk.prop = "C18"; rk.sig = "C18:block-released-twice-after-allocation-failure";
+				rk.what = std::to_string(rk.foreign_free) + " block(s) were passed to the configured free although they were not (or no longer) allocated";
+			}
 			if (!rk.ok) {
 				rk.what = "with allocation #" + std::to_string(k) + " of " + std::to_string(N) + " failing: " + rk.what;
 				if (rk.prop != "C18") { rk.sig = "C18:after-allocation-failure(" + rk.sig + ")"; rk.prop = "C18"; }
